@@ -170,7 +170,7 @@ pub fn gen(tier: &str, seed: u64, out: &mut dyn FnMut(Value)) {
     }
     let alpha = full;
     let mut rng = Rng::new(seed);
-    let n = if thorough { 40000 } else { 3000 };
+    let n = if thorough { 200000 } else { 12000 };
     for _ in 0..n {
         let len = 5 + rng.below(21);
         let mut ops: Vec<Value> = (0..len).map(|_| rng.pick(&alpha).clone()).collect();
